@@ -111,6 +111,8 @@ pub fn c05(known: &Known) -> CoreScenario {
         ops.push(Op::UnsubscribeLs(A, 100 + i));
     }
     ops.push(Op::UnsubscribeLs(B, 999));
+    ops.push(Op::DropLsReceiver(A, 100));
+    ops.push(Op::DropLsReceiver(A, 101));
     let mut probe = store_probe();
     // C05 is about child listings: wildcard reads are C01/C04's business
     probe.patterns = vec![s("?"), s("a/?"), s("?/b")];
@@ -159,6 +161,10 @@ pub fn c03(known: &Known, max_subs: usize) -> CoreScenario {
     for (c, tid) in [(A, 1), (A, 2), (B, 5), (B, 6), (A, 8), (A, 11), (B, 77)] {
         ops.push(Op::Unsubscribe(c, tid));
     }
+    // the client side of a subscription vanishes without an unsubscribe: the server cleans up when its
+    // next send fails; the other subscriptions must not notice
+    ops.push(Op::DropReceiver(B, 6));
+    ops.push(Op::DropReceiver(A, 1));
     ops.push(Op::Disconnect(A));
     ops.push(Op::Disconnect(B));
     let probe = Probe {
@@ -199,6 +205,48 @@ pub fn c06(known: &Known, clients: &[C], keys: &[&str], with_data: bool) -> Core
     let setup = clients.iter().map(|c| Op::Connect(*c)).collect();
     let probe = Probe { keys: vec![s("x"), s("x/y")], patterns: vec![], parents: vec![None, Some(s("x"))], parent_patterns: vec![] };
     CoreScenario::new("C06", setup, ops, probe, known.open_for("C06"))
+}
+
+/// C03, lazy clean-up: receivers that vanish without an unsubscribe, the server's clean-up when its
+/// next send fails, and the unsubscribe / disconnect that follows - a small alphabet explored without
+/// de-duplication, because bookkeeping a change might add (counters, caches) is invisible to the
+/// snapshot and would otherwise be merged away.
+pub fn c03_lazy(known: &Known) -> CoreScenario {
+    let ops = vec![
+        Op::PSubscribe(A, 8, s("#"), false, true),
+        Op::PSubscribe(B, 6, s("a/#"), false, true),
+        Op::Subscribe(B, 3, s("a/b"), false, true),
+        Op::DropReceiver(B, 6),
+        Op::DropReceiver(B, 3),
+        Op::Set(A, s("a/b"), json!(1)),
+        Op::Set(A, s("a/b"), json!(2)),
+        Op::Unsubscribe(B, 6),
+        Op::Unsubscribe(B, 3),
+        Op::Disconnect(B),
+    ];
+    let probe = Probe { keys: vec![s("a/b")], patterns: vec![s("#")], parents: vec![None], parent_patterns: vec![] };
+    let mut sc = CoreScenario::new("C03", vec![], ops, probe, known.open_for("C03"));
+    sc.max_subs = 3;
+    sc
+}
+
+/// C05, the same for ls subscriptions.
+pub fn c05_lazy(known: &Known) -> CoreScenario {
+    let ops = vec![
+        Op::SubscribeLs(A, 100, None),
+        Op::SubscribeLs(B, 101, Some(s("a"))),
+        Op::SubscribeLs(B, 102, None),
+        Op::DropLsReceiver(B, 101),
+        Op::DropLsReceiver(B, 102),
+        Op::Set(A, s("a/b"), json!(1)),
+        Op::Set(A, s("c"), json!(1)),
+        Op::Delete(A, s("a/b")),
+        Op::UnsubscribeLs(B, 101),
+        Op::UnsubscribeLs(B, 102),
+        Op::Disconnect(B),
+    ];
+    let probe = Probe { keys: vec![s("a/b")], patterns: vec![], parents: vec![None, Some(s("a"))], parent_patterns: vec![] };
+    CoreScenario::new("C05", vec![], ops, probe, known.open_for("C05"))
 }
 
 /// C06 with four clients on one key: a queue of three waiters, so that a waiter leaving from the
